@@ -422,7 +422,7 @@ func runC12(pl *plan.Plan, out *plan.Outcome) {
 		env.Violate("stop-hangs", transportNames[tr], "Stop() was called at +%v with the consumer draining and had not returned when the run ended (%s)", stopAt.Sub(t0), res)
 		out.Hash = fmt.Sprintf("%s-stuck", out.Hash)
 	} else if res != "done" && out.Trouble == "" {
-		out.Trouble = "run ended: " + res
+		env.runEnded(res, out)
 		return
 	}
 	if !stopStuck {
